@@ -21,7 +21,7 @@ ASSUMPTIONS = [
     'stop() from a second thread is given no exit code (SystemExit would be raised in that thread, not in run()\'s caller)',
     'a harness generate_events handler keeps the idle wait from blocking and ends a run that ignores stop() after 400 further iterations',
 ]
-REQUIRED = ['sched_stop_runs_to_completion_at_a_loop_preemption_point', 'sched_stopper_preempted_while_loop_sleeps', 'stop_in_started', 'stop_mid_chain', 'stop_in_generator_step', 'stop_via_systemexit', 'stop_via_keyboardinterrupt',
+REQUIRED = ['systemexit_with_a_code_after_the_manager_had_been_stopped', 'sched_stop_runs_to_completion_at_a_loop_preemption_point', 'sched_stopper_preempted_while_loop_sleeps', 'stop_in_started', 'stop_mid_chain', 'stop_in_generator_step', 'stop_via_systemexit', 'stop_via_keyboardinterrupt',
             'stop_from_second_thread', 'exit_code_given', 'events_fired_after_stop', 'stopped_handler_fires', 'queued_before_run',
             'second_cycle', 'stop_when_not_running', 'stop_of_registered_child_while_root_runs', 'systemexit_while_not_running',
             'several_exits_in_one_run', 'codeless_exit_next_to_a_coded_one', 'loop_iteration_with_events_still_queued', 'handler_failed_before_the_stop',
@@ -187,7 +187,14 @@ def run_case(case):
             marks.add('several_exits_in_one_run')
             first = next(e for e in seg if e[0] in ('STOPCALL', 'SYSEXIT'))
             if first[3] is None and codes:
-                given = 'n/a'      # a code offered after the manager had already been stopped: stop(code) has no effect then - not asserted
+                coded = next(e for e in seg if e[0] in ('STOPCALL', 'SYSEXIT') and e[3] is not None)
+                if coded[0] == 'SYSEXIT':
+                    # a SystemExit(code) raised by a step that runs after the manager has been stopped (the `stopped` handler, the next step
+                    # of the generator that called stop(), what they fire): its code is carried to the caller of run() like any other
+                    given = coded[3]
+                    marks.add('systemexit_with_a_code_after_the_manager_had_been_stopped')
+                else:
+                    given = 'n/a'  # a code offered to stop() after the manager had already been stopped: stop() has no effect then - not asserted
             else:
                 given = codes[0] if codes else None
             if codes and any(e[0] in ('STOPCALL', 'SYSEXIT') and e[3] is None for e in seg):
@@ -328,6 +335,35 @@ def corpus():
         if h['name'] == 'stopped':
             h['body'] = h['body'] + [['sysexit', 9]]
     cs.append({'name': 'bare-then-coded-exit', 'handlers': hs, 'cycles': [{}, {}]})
+    # a coded SystemExit from steps that only run once the manager has been stopped and its queue is empty: the next step of the generator
+    # that called stop(), a generator `stopped` handler after a yield, a handler of what such a late step fires
+    # (how many iterations after the stop the step comes is swept: the steps that run while the queue is still draining, and the ones that
+    # run in the few iterations run() grants after that - programs that need more than those are not generated, see DESIGN section 4, C08)
+    late_codes = (5, 0, 'late')
+    for k in range(0, 6):
+        code = late_codes[k % 3]
+        hs = chain(1, ['stopmgr', None], 1, gen_stop=True)
+        for h in hs:
+            if h['gen']:
+                h['body'] = h['body'] + [['yield', None]] * k + [['sysexit', code]]
+        cs.append({'name': 'stop-then-coded-exit-%d-steps-later-%r' % (k, code), 'handlers': hs, 'cycles': [{}, {'pre_fires': [E('x')]}]})
+    for k in range(0, 7):
+        code = late_codes[k % 3]
+        hs = chain(1, ['stopmgr', None], 0)
+        for h in hs:
+            if h['name'] == 'stopped':
+                h['gen'] = True
+                h['body'] = h['body'] + [['yield', None]] * k + [['sysexit', code]]
+        cs.append({'name': 'coded-exit-in-step-%d-of-stopped-%r' % (k, code), 'handlers': hs, 'cycles': [{}, {}]})
+    for k in range(0, 5):
+        code = late_codes[k % 3]
+        hs = chain(1, ['sysexit', None], 2)
+        for h in hs:
+            if h['name'] == 'stopped':
+                h['gen'] = True
+                h['body'] = [['yield', None]] * k + [['fire', E('lastwords')]] + h['body']
+        cs.append({'name': 'coded-exit-by-a-handler-of-an-event-fired-%d-steps-late-%r' % (k, code), 'handlers': hs + [HD(95, 'lastwords', [['sysexit', code]])],
+                   'cycles': [{}, {}]})
     for code in (5, 'early'):
         cs.append({'name': 'sysexit-while-not-running-%r' % (code,), 'handlers': chain(1, ['stopmgr', None], 1) + [HD(90, 'presys', [['fire', E('x')], ['sysexit', code]])],
                    'cycles': [{'pre_sysexit': code}, {}, {'pre_sysexit': code, 'pre_fires': [E('x')]}]})
